@@ -90,6 +90,7 @@ type outcome struct {
 
 var (
 	reItemName = regexp.MustCompile(`T\d+(N\d+|[gprmS])?\b`)
+	reCallName = regexp.MustCompile(`K\d+(N\d+|[fMIdt])?\b`)
 	rePos      = regexp.MustCompile(`(?:[^\s:"]*/)?([\w-]+\.(?:go|wa|wat)):\d+(:\d+)?:?`)
 	reNum      = regexp.MustCompile(`\b\d+\b`)
 	reHex      = regexp.MustCompile(`0x[0-9a-fA-F]+`)
@@ -114,6 +115,16 @@ func normMsg(s string) string {
 	}
 	if len(s) > 120 {
 		s = s[:120]
+	}
+	return s
+}
+
+// normMsgCalls: the calls family also uses int64 and float32 and its own item names.
+func normMsgCalls(s string) string {
+	s = reCallName.ReplaceAllString(s, "K")
+	s = normMsg(s)
+	for _, b := range []string{"int64", "float32", "i64", "f32"} {
+		s = strings.ReplaceAll(s, b, "B")
 	}
 	return s
 }
@@ -218,6 +229,165 @@ type failure struct {
 	out  outcome
 }
 
+// runItemFamily compiles and validates every item of a family packed into programs, isolates the
+// failing items and reports them under C16|<fam>|<stage>|<message>|<item.Outer>|<item.Context>.
+func (x *runner) runItemFamily(fam string, items []progs.TypeItem, norm func(string) string) int {
+	r := x.r
+	pre, what := "", "type"
+	ctxOf := func(it progs.TypeItem) string { return it.Context }
+	if fam != "types" {
+		pre, what = fam+"_", "call of"
+		ctxOf = func(it progs.TypeItem) string { return it.Outer + " (" + it.Context + ")" }
+	}
+	// pack items of the same context and constructor skeleton together: a defect of a (skeleton,
+	// context) class then fails whole programs instead of one item in each of many programs
+	order := make([]int, len(items))
+	for i := range order {
+		order[i] = i
+	}
+	sort.SliceStable(order, func(a, b int) bool {
+		ia, ib := items[order[a]], items[order[b]]
+		if ia.Context != ib.Context {
+			return ia.Context < ib.Context
+		}
+		if ia.Outer != ib.Outer {
+			return ia.Outer < ib.Outer
+		}
+		return ia.Skel < ib.Skel
+	})
+	per := 32
+	var batches [][]progs.TypeItem
+	for lo := 0; lo < len(order); lo += per {
+		var b []progs.TypeItem
+		for _, k := range order[lo:min(lo+per, len(order))] {
+			b = append(b, items[k])
+		}
+		batches = append(batches, b)
+	}
+
+	var failures []failure
+	var notes []failure
+	nOK := 0
+	render := func(bs [][]progs.TypeItem, wa bool) []string {
+		srcs := make([]string, len(bs))
+		mc.ParallelFor(len(bs), func(i int) { srcs[i] = progs.RenderTypeProgram(bs[i], wa) })
+		return srcs
+	}
+	first := true
+	for round := 0; len(batches) > 0; round++ {
+		if r.Expired() {
+			r.Cap("deadline")
+			break
+		}
+		srcs := render(batches, true)
+		if first {
+			// Go must accept every generated program (the Go rendering of the same items)
+			gsrcs := render(batches, false)
+			var mu sync.Mutex
+			mc.ParallelFor(len(gsrcs), func(i int) {
+				if err := goCheck(gsrcs[i]); err != nil {
+					mu.Lock()
+					r.HarnessError("generator wrote a program Go rejects: %v (first item %s in %s)", err, batches[i][0].Shape, batches[i][0].Context)
+					mu.Unlock()
+				}
+			})
+			first = false
+		}
+		outs := x.runPrograms(srcs, true)
+		var next [][]progs.TypeItem
+		for i, o := range outs {
+			b := batches[i]
+			if o.stage == "ok" {
+				nOK += len(b)
+				for _, it := range b {
+					r.Distinct("ok|" + it.Skel + "|" + it.Context)
+				}
+				if len(b) > 0 && r.WantSample() {
+					r.Sample(map[string]any{"items": len(b), "first_item": b[0].Shape + " in " + b[0].Context, "outcome": "compiles, V8 validates", "wa_source_head": clip(srcs[i], 400)})
+				}
+				continue
+			}
+			if len(b) == 1 {
+				if o.stage == "frontend" || o.stage == "go2wa" {
+					notes = append(notes, failure{b[0], o})
+				} else {
+					failures = append(failures, failure{b[0], o})
+				}
+				continue
+			}
+			// items are packed by (context, constructor) class, so failing items cluster: a failing
+			// program is cut into quarters, a failing quarter into single items
+			if len(b) > 8 {
+				q := (len(b) + 3) / 4
+				for lo := 0; lo < len(b); lo += q {
+					next = append(next, b[lo:min(lo+q, len(b))])
+				}
+			} else {
+				for _, it := range b {
+					next = append(next, []progs.TypeItem{it})
+				}
+			}
+		}
+		batches = next
+	}
+
+	// ---------------------------------------------------------------- report
+	sort.Slice(failures, func(a, b int) bool { return failures[a].item.Index < failures[b].item.Index })
+	sort.Slice(notes, func(a, b int) bool { return notes[a].item.Index < notes[b].item.Index })
+	seen := map[string]bool{}
+	confirmed := map[string]bool{} // (stage, message, constructor) classes re-run three more times
+	classCount := map[string]int{}
+	for _, f := range failures {
+		class := f.out.stage + "|" + norm(f.out.msg) + "|" + f.item.Outer
+		key := "C16|" + fam + "|" + class + "|" + f.item.Context
+		r.Distinct(f.out.stage + "|" + f.item.Skel + "|" + f.item.Context)
+		classCount[key]++
+		if seen[key] {
+			continue
+		}
+		seen[key] = true
+		src := progs.RenderTypeProgram([]progs.TypeItem{f.item}, true)
+		how := "failed alone"
+		if !confirmed[class] {
+			// the first witness of every (stage, message, constructor) class is re-run three more
+			// times, alone: a crash must reproduce every time
+			confirmed[class] = true
+			conf := x.runPrograms([]string{src, src, src}, true)
+			same := true
+			for _, c := range conf {
+				if c.stage != f.out.stage || norm(c.msg) != norm(f.out.msg) {
+					same = false
+				}
+			}
+			if !same {
+				r.HarnessError("outcome of %s in %s is not reproducible: %v then %v", f.item.Shape, f.item.Context, f.out, conf)
+				continue
+			}
+			how = "reproduced 4x alone"
+		}
+		r.Report(key, fmt.Sprintf("%s %s in context %s: %s: %s (Go accepts the program; %s)", what, f.item.Shape, ctxOf(f.item), f.out.stage, clip(f.out.msg, 300), how),
+			map[string]any{"shape": f.item.Shape, "context": f.item.Context, "wa_source": src, "go_source": progs.RenderTypeProgram([]progs.TypeItem{f.item}, false), "stage": f.out.stage, "message": f.out.msg})
+	}
+	// notes: programs Go accepts and Wa's front end rejects
+	noteClasses := map[string]int{}
+	var noteList []string
+	for _, n := range notes {
+		k := n.out.stage + "|" + norm(n.out.msg) + "|" + n.item.Outer + "|" + n.item.Context
+		if noteClasses[k] == 0 && len(noteList) < 40 {
+			noteList = append(noteList, fmt.Sprintf("%s in %s: %s", n.item.Shape, n.item.Context, clip(n.out.msg, 160)))
+		}
+		noteClasses[k]++
+		r.Distinct("note|" + k)
+	}
+	r.Extra(pre+"failing_items_per_key", classCount)
+	r.Extra(pre+"items_ok", nOK)
+	r.Extra(pre+"items_failing", len(failures))
+	r.Extra(pre+"items_rejected_by_wa_front_end_but_accepted_by_go", len(notes))
+	r.Extra(pre+"front_end_rejection_classes", len(noteClasses))
+	r.Extra(pre+"front_end_rejection_examples", noteList)
+	return nOK
+}
+
 func main() {
 	if mc.IsWorker() {
 		mc.WorkerMain(handle)
@@ -228,7 +398,7 @@ func main() {
 	if s := os.Getenv("C16_DEPTH"); s != "" {
 		fmt.Sscan(s, &depth)
 	}
-	r.Rule("every type of the grammar {int32,float64,string,bool} | *T | []T | [2]T | map[K]T | struct{a T; b U} | func(T) U | interface{} | named | named-with-method up to the constructor depth, in each of 9 contexts, each touching the value; plus every program of the differential-execution corpus (progs.AllFamilies); each program through go2wa -> api.BuildFile -> watutil.Wat2Wasm in a worker process and the binary through V8's WebAssembly.validate; distinct = distinct (outcome stage, type skeleton, context) classes")
+	r.Rule("every type of the grammar {int32,float64,string,bool} | *T | []T | [2]T | map[K]T | struct{a T; b U} | func(T) U | interface{} | named | named-with-method up to the constructor depth, in each of 9 contexts, each touching the value; the calls family: callee kind {func, method, closure, interface method} x use {defer, discarded expression statement, multi-assignment, return f()} x result list (1..3 results over int32,int64,float32,float64,string,bool and composite types); plus every program of the differential-execution corpus (progs.AllFamilies); each program through go2wa -> api.BuildFile -> watutil.Wat2Wasm in a worker process and the binary through V8's WebAssembly.validate; distinct = distinct (outcome stage, type skeleton, context) classes")
 	r.Bound("constructor_depth", depth)
 	r.Assume("domain: programs accepted by Go's type checker (go/types, 32-bit int) and by Wa's front end; a program Wa's front end rejects is recorded as a note, not as a violation")
 	r.Assume("documented restrictions (docs/goals.md): no goroutines (`go`), no channels; complex numbers, reflection 'may have', method values 'may be absent': the type grammar uses none of them and corpus groups about method values / method expressions are excluded")
@@ -322,153 +492,28 @@ func main() {
 	}
 	r.Bound("type_items", len(items))
 	r.Bound("types", len(items)/len(progs.TypeContexts))
-	// pack items of the same context and constructor skeleton together: a defect of a (skeleton,
-	// context) class then fails whole programs instead of one item in each of many programs
-	order := make([]int, len(items))
-	for i := range order {
-		order[i] = i
-	}
-	sort.SliceStable(order, func(a, b int) bool {
-		ia, ib := items[order[a]], items[order[b]]
-		if ia.Context != ib.Context {
-			return ia.Context < ib.Context
-		}
-		if ia.Outer != ib.Outer {
-			return ia.Outer < ib.Outer
-		}
-		return ia.Skel < ib.Skel
-	})
-	per := 32
-	var batches [][]progs.TypeItem
-	for lo := 0; lo < len(order); lo += per {
-		var b []progs.TypeItem
-		for _, k := range order[lo:min(lo+per, len(order))] {
-			b = append(b, items[k])
-		}
-		batches = append(batches, b)
-	}
-	r.Bound("items_per_program", per)
-
-	var failures []failure
-	var notes []failure
+	r.Bound("items_per_program", 32)
 	nOK := 0
-	render := func(bs [][]progs.TypeItem, wa bool) []string {
-		srcs := make([]string, len(bs))
-		mc.ParallelFor(len(bs), func(i int) { srcs[i] = progs.RenderTypeProgram(bs[i], wa) })
-		return srcs
-	}
-	first := true
-	for round := 0; len(batches) > 0; round++ {
-		if r.Expired() {
-			r.Cap("deadline")
-			break
-		}
-		srcs := render(batches, true)
-		if first {
-			// Go must accept every generated program (the Go rendering of the same items)
-			gsrcs := render(batches, false)
-			var mu sync.Mutex
-			mc.ParallelFor(len(gsrcs), func(i int) {
-				if err := goCheck(gsrcs[i]); err != nil {
-					mu.Lock()
-					r.HarnessError("generator wrote a program Go rejects: %v (first item %s in %s)", err, batches[i][0].Shape, batches[i][0].Context)
-					mu.Unlock()
-				}
-			})
-			first = false
-		}
-		outs := x.runPrograms(srcs, true)
-		var next [][]progs.TypeItem
-		for i, o := range outs {
-			b := batches[i]
-			if o.stage == "ok" {
-				nOK += len(b)
-				for _, it := range b {
-					r.Distinct("ok|" + it.Skel + "|" + it.Context)
-				}
-				if len(b) > 0 && r.WantSample() {
-					r.Sample(map[string]any{"items": len(b), "first_item": b[0].Shape + " in " + b[0].Context, "outcome": "compiles, V8 validates", "wa_source_head": clip(srcs[i], 400)})
-				}
-				continue
-			}
-			if len(b) == 1 {
-				if o.stage == "frontend" || o.stage == "go2wa" {
-					notes = append(notes, failure{b[0], o})
-				} else {
-					failures = append(failures, failure{b[0], o})
-				}
-				continue
-			}
-			// items are packed by (context, constructor) class, so failing items cluster: a failing
-			// program is cut into quarters, a failing quarter into single items
-			if len(b) > 8 {
-				q := (len(b) + 3) / 4
-				for lo := 0; lo < len(b); lo += q {
-					next = append(next, b[lo:min(lo+q, len(b))])
-				}
-			} else {
-				for _, it := range b {
-					next = append(next, []progs.TypeItem{it})
-				}
-			}
-		}
-		batches = next
+	if os.Getenv("C16_NOTYPES") == "" {
+		nOK = x.runItemFamily("types", items, normMsg)
 	}
 
-	// ---------------------------------------------------------------- report
-	sort.Slice(failures, func(a, b int) bool { return failures[a].item.Index < failures[b].item.Index })
-	sort.Slice(notes, func(a, b int) bool { return notes[a].item.Index < notes[b].item.Index })
-	seen := map[string]bool{}
-	confirmed := map[string]bool{} // (stage, message, constructor) classes re-run three more times
-	classCount := map[string]int{}
-	for _, f := range failures {
-		class := f.out.stage + "|" + normMsg(f.out.msg) + "|" + f.item.Outer
-		key := "C16|types|" + class + "|" + f.item.Context
-		r.Distinct(f.out.stage + "|" + f.item.Skel + "|" + f.item.Context)
-		classCount[key]++
-		if seen[key] {
-			continue
-		}
-		seen[key] = true
-		src := progs.RenderTypeProgram([]progs.TypeItem{f.item}, true)
-		how := "failed alone"
-		if !confirmed[class] {
-			// the first witness of every (stage, message, constructor) class is re-run three more
-			// times, alone: a crash must reproduce every time
-			confirmed[class] = true
-			conf := x.runPrograms([]string{src, src, src}, true)
-			same := true
-			for _, c := range conf {
-				if c.stage != f.out.stage || normMsg(c.msg) != normMsg(f.out.msg) {
-					same = false
+	// ---------------------------------------------------------------- calls family
+	if os.Getenv("C16_NOCALLS") == "" {
+		citems := progs.CallItems(r.Thorough())
+		if s := os.Getenv("C16_CALLS_FILTER"); s != "" {
+			var sel []progs.TypeItem
+			for _, it := range citems {
+				if strings.Contains(it.Outer+" "+it.Shape, s) {
+					sel = append(sel, it)
 				}
 			}
-			if !same {
-				r.HarnessError("outcome of %s in %s is not reproducible: %v then %v", f.item.Shape, f.item.Context, f.out, conf)
-				continue
-			}
-			how = "reproduced 4x alone"
+			citems = sel
+			r.Cap("C16_CALLS_FILTER " + s)
 		}
-		r.Report(key, fmt.Sprintf("type %s in context %s: %s: %s (Go accepts the program; %s)", f.item.Shape, f.item.Context, f.out.stage, clip(f.out.msg, 300), how),
-			map[string]any{"shape": f.item.Shape, "context": f.item.Context, "wa_source": src, "go_source": progs.RenderTypeProgram([]progs.TypeItem{f.item}, false), "stage": f.out.stage, "message": f.out.msg})
+		r.Bound("call_items", len(citems))
+		nOK += x.runItemFamily("calls", citems, normMsgCalls)
 	}
-	// notes: programs Go accepts and Wa's front end rejects
-	noteClasses := map[string]int{}
-	var noteList []string
-	for _, n := range notes {
-		k := n.out.stage + "|" + normMsg(n.out.msg) + "|" + n.item.Outer + "|" + n.item.Context
-		if noteClasses[k] == 0 && len(noteList) < 40 {
-			noteList = append(noteList, fmt.Sprintf("%s in %s: %s", n.item.Shape, n.item.Context, clip(n.out.msg, 160)))
-		}
-		noteClasses[k]++
-		r.Distinct("note|" + k)
-	}
-	r.Extra("failing_items_per_key", classCount)
-	r.Extra("items_ok", nOK)
-	r.Extra("items_failing", len(failures))
-	r.Extra("items_rejected_by_wa_front_end_but_accepted_by_go", len(notes))
-	r.Extra("front_end_rejection_classes", len(noteClasses))
-	r.Extra("front_end_rejection_examples", noteList)
 	if nOK == 0 {
 		r.HarnessError("vacuous: no item compiled")
 	}
